@@ -48,6 +48,20 @@ def cases(tier, seed):
     # representable in float32): seed C16-10, statistics turned into Python floats and then subtracted in float32
     for k in ks:
         for sub in itertools.combinations(range(16), k):
+            for form in ("proj_nl_array", "proj_nl_grid"):
+                if form == "proj_nl_array" or sum(sub) % 4 == 0:
+                    yield dict(kind="hull", frame=[1.0, 0.0], sub=list(sub), form=form)
+    # ... and clouds with many points ALONG oblique hull sides (triangles, a diamond, diagonal bands, the full lattice): points that are
+    # not hull vertices before the projection become vertices after it
+    idx = lambda cond: [i for i, p in enumerate(L44) if cond(p[0], p[1])]
+    shapes = [idx(lambda x, y: x + y <= 3), idx(lambda x, y: x + y >= 3), idx(lambda x, y: x >= y), idx(lambda x, y: x <= y),
+              idx(lambda x, y: abs(x - y) <= 1), idx(lambda x, y: abs(x + y - 3) <= 1), list(range(16)),
+              idx(lambda x, y: abs(2 * x - 3) + abs(2 * y - 3) <= 4)]
+    for sub in shapes:
+        for form in ("proj_nl_array", "proj_nl_grid", "array2d", "proj_array"):
+            yield dict(kind="hull", frame=[1.0, 0.0], sub=sub, form=form)
+    for k in ks:
+        for sub in itertools.combinations(range(16), k):
             if sum(sub) % 3 == seed % 3 or tier == "thorough":
                 for form in ("f32q", "f32grid"):
                     yield dict(kind="hull", frame=[2.0, 1.0e7], sub=list(sub), form=form)
@@ -142,12 +156,15 @@ def run(case, rec):
             rec.trivial = True
             rec.skip("degenerate (collinear) hull: outside the quantifier")
             return
-        qs = [(i / 2, j / 2) for j in range(-2, 9) for i in range(-2, 9)]
-        h2 = [(2 * x, 2 * y) for x, y in h]
-        verdict = [where(h2, (int(2 * q[0]), int(2 * q[1]))) for q in qs]
+        # query lattice: half units (11 x 11); quarter-and-eighth units (41 x 21) for the non-linear projection, whose slivers are thin
+        fine = case["form"].startswith("proj_nl")
+        nqe, nqn = (41, 21) if fine else (11, 11)
+        qs = [(i / 8, j / 4) for j in range(-4, 17) for i in range(-8, 33)] if fine else [(i / 2, j / 2) for j in range(-2, 9) for i in range(-2, 9)]
+        h2 = [(8 * x, 8 * y) for x, y in h]
+        verdict = [where(h2, (int(8 * q[0]), int(8 * q[1]))) for q in qs]
         de = np.array([p[0] * sc + off for p in pts]); dn = np.array([p[1] * sc - off / 2 for p in pts])
-        qe = np.array([q[0] * sc + off for q in qs]).reshape(11, 11)
-        qn = np.array([q[1] * sc - off / 2 for q in qs]).reshape(11, 11)
+        qe = np.array([q[0] * sc + off for q in qs]).reshape(nqn, nqe)
+        qn = np.array([q[1] * sc - off / 2 for q in qs]).reshape(nqn, nqe)
         form = case["form"]
         if form in ("int", "int_e"):
             # integer-valued data coordinates with an integer dtype (both, or the easting only)
@@ -166,12 +183,22 @@ def run(case, rec):
                 return rec.skip("query lattice not representable in float32 in this frame")
             qe, qn = qe.astype(np.float32), qn.astype(np.float32)
         pkw = {}
+        if form in ("proj_nl_array", "proj_nl_grid"):
+            # a NON-LINEAR (monotone) projection: the hull is that of the projected data, which is not the projection of the hull of the
+            # data (seed C16-13: only the hull vertices of the unprojected data were projected). Exact: squares of half-integers.
+            pkw["projection"] = lambda a, b: ((np.asarray(a, dtype=float) + 2.0) ** 2, np.asarray(b, dtype=float) + 0.0)
+            pp = [((F(p[0]) + 2) ** 2, F(p[1])) for p in pts]
+            hp = hull(pp)
+            if len(hp) < 3:
+                rec.trivial = True
+                return rec.skip("degenerate projected hull")
+            verdict = [where(hp, ((F(q[0]) + 2) ** 2, F(q[1]))) for q in qs]
         if form in ("proj_array", "proj_grid"):
             # the projection is applied to BOTH the data and the query points / grid nodes (a rotation plus scaling keeps hull
             # membership of every lattice point): seed C16-r3_1
             pkw["projection"] = lambda a, b: (2 * (np.asarray(a) + np.asarray(b)) + 7, 3 * (np.asarray(a) - np.asarray(b)) - 1)
-        if form in ("grid", "proj_grid", "f32grid"):
-            vals = np.arange(121.0).reshape(11, 11) + 1.0
+        if form in ("grid", "proj_grid", "f32grid", "proj_nl_grid"):
+            vals = np.arange(float(nqn * nqe)).reshape(nqn, nqe) + 1.0
             grid = xr.Dataset({"v": (("northing", "easting"), vals)}, coords={"easting": qe[0, :], "northing": qn[:, 0]})
             got = call(rec, vd.convexhull_mask, (de, dn), grid=grid, **pkw)
             if raised(got):
@@ -191,12 +218,12 @@ def run(case, rec):
             rec.check(not raised(again) and np.array_equal(np.asarray(again), np.asarray(got)), "a second call with the same arrays gives a different mask")
             mask = np.asarray(got)
             rec.check(mask.dtype == bool and mask.shape == a.shape, "mask must be boolean in the query shape")
-            mask = mask.reshape(11, 11)
+            mask = mask.reshape(nqn, nqe)
         mf = mask.ravel()
-        bad = [(qs[i], bool(mf[i]), verdict[i]) for i in range(121) if (verdict[i] == 1 and not mf[i]) or (verdict[i] == -1 and mf[i])]
+        bad = [(qs[i], bool(mf[i]), verdict[i]) for i in range(nqn * nqe) if (verdict[i] == 1 and not mf[i]) or (verdict[i] == -1 and mf[i])]
         rec.check(not bad, "hull membership wrong for %s (data %s, frame %s)" % (bad[:4], pts, case["frame"]))
         rec.trivial = not any(v == 1 for v in verdict)
-        rec.count("points_tested", 121)
+        rec.count("points_tested", nqn * nqe)
         rec.cls("hull/%s/k=%d" % (form, len(pts)))
         return
     if kind == "project_invalid":
